@@ -639,6 +639,9 @@ def c17(tier):
     bindir = vlib.build_repo_bins()
     cli_afs = rng.sample(sets["ref3"], 200 if thorough else 60) + [a for a in sets["shaped"] if 1 <= a["n"] <= 8][:20] + sets["rand"][:(100 if thorough else 30)]
     csegs = clilib.fault_events(cli_afs, res.wd, {"crustabri": os.path.join(bindir, "crustabri")}, seed(), FAKESAT, per_af=16 if thorough else 10)
+    # ... and on instance files above 1 MiB (about 10^5 arguments, nearly all isolated)
+    csegs += clilib.fault_events(clilib.megabyte_instances(seed(), 4 if thorough else 2), res.wd, {"crustabri": os.path.join(bindir, "crustabri")}, seed() + 1, FAKESAT,
+                                 per_af=8, big=True)
     t1, st = vlib.judge("TraceStatic.tla", csegs, res.wd, "cli_faults", shards=8)
     res.add_judge("command_line_faults", t1, st, only_props={"C17"})
     res.extra["cli_runs_in_which_the_failing_call_was_reached"] = sum(1 for s_ in csegs for e in s_ if e.get("ev") == "clifault" and e["faulted"])
@@ -922,6 +925,8 @@ def c10(tier):
         segs = vlib.segments(out, openers=("af",))
         log("  RUN enc %-8s %5d frameworks -> %6d clause sets %.1fs" % (name, len(afs), sum(len(s) - 1 for s in segs), time.time() - t))
         t1, st = vlib.judge("TraceEnc.tla", segs, res.wd, name, shards=8)
+        res.extra["enumerations_cut_at_200000_models_not_judged"] = res.extra.get("enumerations_cut_at_200000_models_not_judged", 0) + \
+            sum(1 for sg in segs for e in sg if e.get("ev") == "enc" and e.get("cut"))
         drift = [t for t in t1 if t["pred"].startswith("T2:")]
         if any(t["pred"] == "T2:enumerator_agrees_with_brute_force" for t in drift):
             raise vlib.ToolError("model enumerator of the harness disagrees with TLC's brute force: tool defect, no verdict")
@@ -1074,7 +1079,8 @@ def c05(tier):
         todo = invs + answers * 6 + binans * 6
         nafs = 700
     else:
-        todo = rng.sample(others, 3000) + answers * 16 + binans * 4
+        ufold = [i for i in others if i["pclass"] == "unicodefold" and i["file"] == "good" and i["enc"] != "invalid"]
+        todo = rng.sample(others, 3000) + answers * 16 + binans * 4 + rng.sample(ufold, min(len(ufold), 150))
         nafs = 450
     afs = pool[:nafs]
     per_af = len(todo) // len(afs) + 1
